@@ -46,7 +46,10 @@ def check_job(job):
     out = {'labels': [], 'obs': []}
     try:
         # one job in three also draws the per-sample figures (what the figures are drawn from is the result itself)
-        res = W.process(t, 'none', inst, plot_dir=('plots_%d_%d' % (os.getpid(), idx)) if idx % 3 == 0 else None)
+        # the beads table of half of the jobs holds a row that FAILS (missing file, too few events), listed after the working
+        # rows and referred to by no sample: it is reported in its place and changes nothing else
+        bf = ['none', 'missing', 'none', 'short'][idx % 4]
+        res = W.process(t, bf, inst, plot_dir=('plots_%d_%d' % (os.getpid(), idx)) if idx % 3 == 0 else None)
     except Exception as e:  # noqa
         return {'labels': [('aborted/' + type(e).__name__, -1)], 'obs': [str(e)[:100]]}
     spec = xw.INSTR[inst]
@@ -57,7 +60,7 @@ def check_job(job):
         if isinstance(v, Exception):
             out['labels'].append(('healthy-row-error/' + xw.classify_error(v), i))
             continue
-        hand = W.by_hand(r, t.loc[rid], exp['calls'], inst)
+        hand = W.by_hand(r, t.loc[rid], exp['calls'], inst, beads_fault=bf)
         d = xw.same_sample(v, hand)
         out['obs'].append('%d events; by hand %d' % (v.shape[0], hand.shape[0]))
         if d:
